@@ -235,7 +235,25 @@ func (k c11) Run(c *mon.Ctx, workload string, i int64) {
 
 // runBuiltinCase is shared by C11 and C12.
 func runBuiltinCase(c *mon.Ctx, stmtsIn []*gt.T, pt *ref.Point, cell string, funcs map[string]ref.Builtin, name string) {
-	stmts := gt.ParenthesizeStmts(stmtsIn)
+	runBuiltinCaseNorm(c, gt.ParenthesizeStmts(stmtsIn), pt, cell, funcs, name)
+}
+
+// runBuiltinCaseLoadErr: the model says the program must be rejected at load.
+func runBuiltinCaseLoadErr(c *mon.Ctx, stmts []*gt.T, pt *ref.Point, reason string) {
+	src := gt.Print(stmts, nil)
+	_, err := drive.LoadV1One("c12.p", src)
+	c.Eval(1)
+	c.Nontrivial(src)
+	c.Count("programs_that_must_be_rejected_at_load", 1)
+	if err == nil {
+		c.Violate("invalid-pattern-program-accepted", fmt.Sprintf("the scoping model says this program must be rejected at load time (%s) but it was accepted\n%s", reason, src),
+			map[string]any{"source": src, "reason": reason})
+	}
+}
+
+// runBuiltinCaseNorm takes already parenthesised statements (so that side
+// tables keyed by node stay valid).
+func runBuiltinCaseNorm(c *mon.Ctx, stmts []*gt.T, pt *ref.Point, cell string, funcs map[string]ref.Builtin, name string) {
 	src := gt.Print(stmts, nil)
 	info := map[string]any{"source": src, "point": pt.Show(), "cell": cell}
 	prog := &ref.Program{Scripts: map[string][]*gt.T{name: stmts}, Funcs: funcs}
@@ -261,6 +279,12 @@ func runBuiltinCase(c *mon.Ctx, stmtsIn []*gt.T, pt *ref.Point, cell string, fun
 	real := drive.PointFromModel(pt)
 	var ro drive.Outcome
 	stdout := drive.CaptureStdout(func() { ro = drive.RunV1(script, real, &drive.RunState{Budget: 20000}) })
+	// the failure note is compared by its documented prefix only
+	if m, ok := model.Fields["pl_msg"].(string); ok && m == ref.PlMsgPrefix {
+		if r, ok := real.Fields["pl_msg"].(string); ok && len(r) >= len(m) && r[:len(m)] == m {
+			real.Fields["pl_msg"] = m
+		}
+	}
 	if mo.Unspecified != "" {
 		c.Count("not_compared_unspecified", 1)
 		c.Cell("unspecified_reasons", firstLineOf(mo.Unspecified))
